@@ -54,7 +54,8 @@ def method(v, name):
 
 def constant(canon):
     if canon == 'numpy.inf':
-        return VReal(z3.Real('np.inf'))
+        # +infinity as an extended real (only comparisons / assignment are supported on it)
+        return VReal(z3.Real('np.inf'), inf=z3.IntVal(1))
     if canon in ('numpy.int32', 'numpy.uint32', 'numpy.float32', 'numpy.int64', 'numpy.float64'):
         return VOpaque('dtype:' + canon.split('.')[1])
     return None
@@ -244,6 +245,8 @@ def materialize(I, st, a):
     """Replace a lambda-defined cell array by a named array with a pointwise axiom (needed as a trigger)."""
     if a.arr is None or z3.is_const(a.arr) and a.arr.decl().kind() == z3.Z3_OP_UNINTERPRETED:
         return a
+    if any(_mentions(a.arr, b) for b in I.bound):
+        return a      # depends on a variable bound by an enclosing quantifier: cannot be named by a constant
     tbl = I.__dict__.setdefault('_mat_tbl', {})
     key = a.arr.get_id()
     if key not in tbl:
@@ -364,6 +367,10 @@ def s_set(I, st, args, kwargs):
                                patterns=[mem[x]]))
         card = z3.Int(fresh_name('card'))
         I.assume(st, z3.And(card >= 0, card <= v.length, z3.Implies(v.length > 0, card > 0)))
+        # a duplicate-free list has as many members as cells (finite-set fact)
+        j = z3.Int(fresh_name('j'))
+        I.assume(st, z3.Implies(z3.ForAll([i, j], z3.Implies(z3.And(0 <= i, i < j, j < v.length), v.arr[i] != v.arr[j])),
+                                card == v.length))
         return VSet(v.ek, mem, card)
     if isinstance(v, VDict):
         return VSet(v.kk, v.dom, v.size)
@@ -401,6 +408,9 @@ def set_binop(I, st, op, a, b):
     I.assume(st, card >= 0)
     if isinstance(op, (ast.Sub, ast.BitAnd)) and a.card is not None:
         I.assume(st, card <= a.card)
+    if isinstance(op, ast.Sub) and a.card is not None and b.card is not None:
+        # |A \ B| = |A| - |B| when B is a subset of A (finite-set fact)
+        I.assume(st, z3.Implies(z3.ForAll([x], z3.Implies(b.mem[x], a.mem[x])), card == a.card - b.card))
     return VSet(a.ek, mem, card)
 
 
@@ -456,6 +466,10 @@ def _fix_seq_kind(s, k):
 
 
 def m_append(I, st, s, x):
+    if isinstance(x, VOpt) and not (isinstance(s.ek, tuple) and s.ek[0] == 'opt'):
+        # appending an Optional into a list of plain values: the value must not be None here
+        I.oblige(st, 'not_none[append]', z3.Not(x.is_none))
+        x = x.val
     _fix_seq_kind(s, x.kind)
     s.arr = z3.Store(s.arr, s.length, to_term(x, s.ek))
     s.length = s.length + 1
@@ -688,7 +702,102 @@ def frame_column(I, st, frame, name, txt=''):
 def subscript(I, st, base, idx, txt):
     if isinstance(base, VObj) and base.cls == 'DataFrame' and isinstance(idx, VStr):
         return frame_column(I, st, base, idx, txt)
+    if isinstance(base, VObj) and base.cls in ('ColumnsFrame', 'dictlit') and isinstance(idx, VStr) and idx.concrete() in base.fields:
+        return base.fields[idx.concrete()]
     return None
+
+
+@stub('pandas.DataFrame')
+def s_pd_dataframe(I, st, args, kwargs):
+    """pd.DataFrame({'col': seq, ...}) from a literal dict of sequences: a frame of those columns (RangeIndex)."""
+    if args and isinstance(args[0], VObj) and args[0].cls == 'dictlit':
+        return VObj('ColumnsFrame', dict(args[0].fields))
+    raise EngineError('pd.DataFrame(...) of this shape needs an `abstract` statement contract')
+
+
+@stub('operator.itemgetter')
+def s_itemgetter(I, st, args, kwargs):
+    k = z3.simplify(_int(args[0])).as_long()
+    return VFunc(f'itemgetter:{k}', lambda I_, st_, a, kw: a[0].items[k])
+
+
+def m_dict_items(I, st, d):
+    return VObj('DictItems', {'dict': d})
+
+
+_METHODS[(VDict, 'items')] = m_dict_items
+_AGG = {}
+
+
+def agg_fn(name):
+    """np.median / np.mean / sum of a list: one uninterpreted aggregate per name, shared by code and spec, that
+    depends only on the first n cells (extensionality axiom = trusted library fact)."""
+    if name not in _AGG:
+        from . import speclib as sp
+        F = z3.Function('agg_' + name, z3.IntSort(), z3.ArraySort(z3.IntSort(), z3.RealSort()), z3.RealSort())
+        A = z3.Const('A_agg', z3.ArraySort(z3.IntSort(), z3.RealSort()))
+        B = z3.Const('B_agg', z3.ArraySort(z3.IntSort(), z3.RealSort()))
+        n = z3.Int('n_agg')
+        i = z3.Int('i_agg')
+        sp.axiom(f'agg_{name}.ext', z3.ForAll([A, B, n], z3.Implies(
+            z3.ForAll([i], z3.Implies(z3.And(i >= 0, i < n), A[i] == B[i])), F(n, A) == F(n, B)),
+            patterns=[z3.MultiPattern(F(n, A), F(n, B))]), 'agg_' + name)
+        _AGG[name] = F
+    return _AGG[name]
+
+
+def _agg_stub(name):
+    def f(I, st, args, kwargs):
+        v = args[0]
+        if not isinstance(v, VSeq):
+            raise EngineError(f'{name} of non-sequence')
+        if v.arr is None:
+            return VReal(0)
+        arr = v.arr
+        if v.ek == 'int':
+            i = z3.Int(fresh_name('i'))
+            arr = z3.Lambda([i], z3.ToReal(v.arr[i]))
+        v2 = materialize(I, st, VSeq('real', v.length, arr))
+        return VReal(agg_fn(name)(v.length, v2.arr))
+    return f
+
+
+_FUNCS['numpy.median'] = _agg_stub('median')
+_FUNCS['numpy.mean'] = _agg_stub('mean')
+TRUSTED_NAMES.update({'numpy.median', 'numpy.mean'})
+_plain_sum = _FUNCS['sum']
+
+
+def _sum_stub(I, st, args, kwargs):
+    v = args[0]
+    if isinstance(v, VSeq) and v.ek == 'real':
+        return _agg_stub('sum')(I, st, args, kwargs)
+    return _plain_sum(I, st, args, kwargs)
+
+
+_FUNCS['sum'] = _sum_stub
+_max_plain = _FUNCS['max']
+
+
+def _max_with_key(I, st, args, kwargs):
+    key = kwargs.get('key')
+    if key is not None and len(args) == 1 and isinstance(args[0], VObj) and args[0].cls == 'DictItems' \
+            and isinstance(key, VFunc) and key.name == 'itemgetter:1':
+        # max(d.items(), key=itemgetter(1)): an item whose value is maximal (first such in iteration order)
+        d = args[0].fields['dict']
+        if d.size is not None:
+            I.oblige(st, 'nonempty[max(dict.items())]', d.size > 0)
+        k = fresh_value(d.kk, 'argmax')
+        x = z3.Const(fresh_name('x'), sort_of(d.kk))
+        kt = to_term(k, d.kk)
+        I.assume(st, d.dom[kt])
+        I.assume(st, z3.ForAll([x], z3.Implies(d.dom[x], d.val[x] <= d.val[kt]), patterns=[d.val[x]]))
+        return VTuple([k, from_term(d.val[kt], d.vk)])
+    return _max_plain(I, st, args, kwargs)
+
+
+_FUNCS['max'] = _max_with_key
+
 
 
 def str_subscript(I, st, base, sl, txt):
@@ -792,6 +901,7 @@ def comprehension(I, st, e, out):
     # safety obligations raised under the binder are re-stated universally over the iteration variable
     rng_guard = z3.And(k >= 0, k < n)
     st.guards.append(rng_guard)
+    I.bound.append(k)
     n_ob = len(I.obligations)
     n_guard = 1
     try:
@@ -803,6 +913,7 @@ def comprehension(I, st, e, out):
             n_guard += 1
         body = I.eval(e.elt, st)
     finally:
+        I.bound.pop()
         for _ in range(n_guard):
             st.guards.pop()
         for ob in I.obligations[n_ob:]:
